@@ -65,7 +65,9 @@ type Pre struct {
 	Symlinks bool     `json:"symlinks,omitempty"` // layout target: the pre-existing blob files are symlinks into a content store
 	// Damage (layout target): "root-file-missing" = index.json lists the target tag with the source's top-level digest,
 	// but the manifest's file is not there (an interrupted or pruned layout): the listing alone is no proof that the
-	// target "already equals the source"
+	// target "already equals the source". "root-path-obstructed" = a directory sits where the top-level manifest's file
+	// belongs (the write of that manifest fails: the one file-system fault a layout target can be given without
+	// killing the process): the copy must fail and must not have moved the tag
 	Damage string `json:"damage,omitempty"`
 }
 
@@ -145,7 +147,8 @@ type GenOptions struct {
 	Img       imggen.Options
 	NoDelays  bool
 	Align     bool // draw Case.Align (requests released in pairs) in a quarter of the cases
-	Damage    bool // draw Pre.Damage for layout targets (C03 only: C04 / C14 judge pre-states that must be sound)
+	Damage    bool // draw Pre.Damage "root-file-missing" for layout targets (C03 only: C04 / C14 judge pre-states that must be sound)
+	Obstruct  bool // draw Pre.Damage "root-path-obstructed" for layout targets (C04 only)
 }
 
 // DefaultGen returns the full generator options.
@@ -241,6 +244,9 @@ func Gen(t *rapid.T, o GenOptions) Case {
 	if o.Damage && (c.Pairing == "reg-layout" || c.Pairing == "two-layout") && rapid.IntRange(0, 5).Draw(t, "pre_damage") == 0 {
 		c.Pre.Damage = "root-file-missing"
 	}
+	if o.Obstruct && (c.Pairing == "reg-layout" || c.Pairing == "two-layout") && rapid.IntRange(0, 7).Draw(t, "pre_obstruct") == 0 {
+		c.Pre.Damage = "root-path-obstructed"
+	}
 	c.LayoutNames = rapid.SampledFrom([]int{0, 0, 0, 1, 2, 3, 4, 5}).Draw(t, "layout_names")
 	c.TgtMirror = rapid.IntRange(0, 4).Draw(t, "tgt_mirror") == 0
 	c.Cache = rapid.IntRange(0, 2).Draw(t, "cache") == 0
@@ -326,6 +332,7 @@ type Env struct {
 	cbCalls    atomic.Int64
 	// requests the warm-up sent before the copy (fault positions and request counts are relative to it)
 	WarmRequests int
+	Obstructed   bool // Pre.Damage root-path-obstructed was applied
 }
 
 var staleBody = []byte(`{"schemaVersion":2,"mediaType":"application/vnd.oci.image.manifest.v1+json","config":{"mediaType":"application/vnd.oci.empty.v1+json","digest":"sha256:44136fa355b3678a1146ad16f7e8649e94fb4fc21fe77e8310c060f61caaff8a","size":2,"data":"e30="},"layers":[],"annotations":{"stale":"yes"}}`)
@@ -469,6 +476,17 @@ func Setup(c Case) (*Env, error) {
 			return nil, err
 		}
 	}
+	if c.Pre.Damage == "root-path-obstructed" && e.Tgt.Kind == "layout" {
+		alg, hex, _ := strings.Cut(e.RootDig, ":")
+		p := filepath.Join(e.Tgt.Dir, "blobs", alg, hex)
+		if _, err := os.Lstat(p); err != nil {
+			// only where the pre-state does not hold the top-level manifest (else the tag could already name it)
+			if err := os.MkdirAll(filepath.Join(p, "obstacle"), 0o777); err != nil {
+				return nil, err
+			}
+			e.Obstructed = true
+		}
+	}
 	// record the pre-state from raw storage
 	tv := e.Tgt.View()
 	for _, d := range tv.Digests() {
@@ -478,6 +496,9 @@ func Setup(c Case) (*Env, error) {
 		if d, ok := tv.Tag(t); ok {
 			e.PreTags[t] = d
 		}
+	}
+	if e.Obstructed {
+		delete(e.PreHas, e.RootDig) // a directory is not the manifest
 	}
 	e.PreTag = e.PreTags[e.TgtTag]
 	// refs
